@@ -257,7 +257,7 @@ def sany_ok(module):
 # --------------------------------------------------------------------------
 # batched trace validation
 # --------------------------------------------------------------------------
-def validate_traces(trace_module, cfg, traces, timeout=1800, env=None, jvm=()):
+def validate_traces(trace_module, cfg, traces, timeout=1800, env=None, jvm=("-Xmx3g",)):
     """traces: list of dicts (each must carry 'tid').  Writes an ndjson file, runs
     the trace spec with -workers 1.  Returns (rejected, result) where rejected is a
     list of (tid, line, clause)."""
